@@ -81,6 +81,60 @@ func c11Workload[T any](rep *Report, codec Codec[T], api string, rng *rand.Rand,
 			}
 		}
 	}
+	// "also concurrently": k invocations that only return once ALL of them are inside the caller's function
+	// (a rendezvous), and an invocation whose body itself passes a closure onwards — neither may wait for a
+	// lock that another running invocation holds
+	for _, dir := range []string{"A->B", "B->A"} {
+		rem := ra
+		if dir == "B->A" {
+			rem = rb
+		}
+		const k = 4
+		d := map[string]any{"suite": "C11", "codec": codec.Name, "api": api, "dir": dir, "invocations": k, "concurrent": true, "body": "rendezvous"}
+		rep.Evaluations++
+		rep.Distinct++
+		var inside int64
+		all := make(chan struct{})
+		r := withWatchdog(func() (any, error) {
+			return rem.WithClosure(context.Background(), k, true, func(ctx context.Context, i int, s string) (string, error) {
+				if atomic.AddInt64(&inside, 1) == k {
+					close(all)
+				}
+				select {
+				case <-all:
+					return "met", nil
+				case <-time.After(watchdog / 2):
+					return "", errors.New("alone")
+				}
+			})
+		})
+		if !r.ok || r.err != nil {
+			rep.addViolation("property", key+":rendezvous-call", fmt.Sprintf("%d concurrent invocations that wait for each other: the call did not complete (ok=%v err=%v; %d got inside)", k, r.ok, r.err, atomic.LoadInt64(&inside)), d)
+			return
+		}
+		for i, o := range r.val.([]string) {
+			if o != "met" {
+				rep.addViolation("property", key+":rendezvous", fmt.Sprintf("%d concurrent invocations of one closure never ran at the same time: invocation %d got %q (only %d were ever inside the function together)", k, i, o, atomic.LoadInt64(&inside)), d)
+				break
+			}
+		}
+		d2 := map[string]any{"suite": "C11", "codec": codec.Name, "api": api, "dir": dir, "body": "passes a closure onwards"}
+		rep.Evaluations++
+		rep.Distinct++
+		r = withWatchdog(func() (any, error) {
+			return rem.WithClosure(context.Background(), 1, false, func(ctx context.Context, i int, s string) (string, error) {
+				in, err := rem.WithClosure(ctx, 1, false, func(ctx context.Context, i int, s string) (string, error) { return "inner:" + s, nil })
+				if err != nil {
+					return "", err
+				}
+				return in[0], nil
+			})
+		})
+		if !r.ok || r.err != nil || !strings.HasPrefix(r.val.([]string)[0], "inner:") {
+			rep.addViolation("property", key+":nested-closure", fmt.Sprintf("an invocation whose body makes a closure-carrying call itself did not complete: %+v", r), d2)
+			return
+		}
+	}
 	// value types: numbers, booleans, strings, slices of those; zero / empty / nil included
 	for row := range closureRows {
 		for _, dir := range []string{"A->B", "B->A"} {
@@ -360,6 +414,19 @@ func c12Workload[T any](rep *Report, codec Codec[T], api string, exit string) {
 		cancel()
 		<-done
 		p.B.Svc.OpenGate(77)
+	case "link-already-ended":
+		// the call never becomes pending: the link has ended before it is made (it fails at once); the closure
+		// it registered on the way must be released all the same
+		p.A.Cancel()
+		select {
+		case e := <-p.A.LinkErr:
+			p.A.LinkErr <- e
+		case <-time.After(watchdog):
+		}
+		res = withWatchdog(func() (any, error) { return nil, ra.KeepClosure(context.Background(), 1, cb) })
+		if res.ok && res.err == nil {
+			rep.addViolation("property", key+":no-error", "a closure-carrying call made after the link ended returned a nil error", desc)
+		}
 	case "link-death":
 		done := make(chan struct{})
 		go func() {
@@ -409,7 +476,7 @@ func runC12(rep *Report, tier string, seed int64) {
 	}
 	for r := 0; r < reps; r++ {
 		for _, api := range apis() {
-			for _, exit := range []string{"success", "two-closures", "marshal-failure", "cancel", "link-death"} {
+			for _, exit := range []string{"success", "two-closures", "marshal-failure", "cancel", "link-death", "link-already-ended"} {
 				switch r % 3 {
 				case 0:
 					c12Workload(rep, jsonRaw(), api, exit)
